@@ -51,7 +51,8 @@ def _read_txt(file, delimiter):
 
     data = {}
     try:
-        raw_data = np.loadtxt(file, delimiter=delimiter, unpack=True)
+        # ndmin=2: a file with a single data row must still give a (columns, rows) array
+        raw_data = np.loadtxt(file, delimiter=delimiter, unpack=True, ndmin=2)
     except ValueError:
         raise IOError("Invalid file format!")
 
